@@ -77,9 +77,9 @@ def _dump_mir_locked(crate, features, debug_assertions, repo, cache, tag, d, out
     r = subprocess.run(cmd, cwd=repo, env=env, stdout=subprocess.PIPE, stderr=subprocess.PIPE)
     if r.returncode != 0 or len(r.stdout) < 1000:
         raise RuntimeError(f'MIR dump of {crate} failed:\n' + r.stderr.decode()[-3000:])
-    with open(out + '.tmp', 'wb') as fh:
+    with open(out + f'.tmp{os.getpid()}', 'wb') as fh:
         fh.write(r.stdout)
-    os.replace(out + '.tmp', out)
+    os.replace(out + f'.tmp{os.getpid()}', out)
     # keep the three most recent dumps per tag (switching between trees does not force a re-dump)
     olds = [n for n in os.listdir(d) if re.match(re.escape(tag) + r'-[0-9a-f]{16}\.mir$', n) and os.path.join(d, n) != out]
     olds.sort(key=lambda n: os.path.getmtime(os.path.join(d, n)), reverse=True)
